@@ -204,6 +204,7 @@ def run(chk) -> None:
     repo = chk.repo
     chk.rule("R22a", "every violation count that can influence a sys.exit argument of lint/fix/format is suppression- and warning-filtered")
     chk.rule("R22b", "LintedDir counters read by the exit computations are only advanced by filtered counts or by warning-guarded constant increments")
+    chk.rule("R22g", "in the fix drivers a count that includes parse errors influences the exit status only where fix_even_unparsable is known to be off")
     chk.rule("R22d", "LintingResult.stats derives 'exit code' only from the filtered violations statistic")
     chk.rule("R22e", "exit constants are 0/1/2; user errors exit with EXIT_ERROR inside PathAndUserErrorHandler; commands run linter calls inside it")
     counts = Counts(repo)
@@ -254,6 +255,21 @@ def run(chk) -> None:
                         detail=f"{f.name}: exit-influencing count {short(n, 70)}",
                     )
                     chk.sample({"rule": "R22a", "function": f.name, "site": f"{CLI}:{getattr(n, 'lineno', 0)}", "count": repr(ci)})
+                    # R22g: with fix_even_unparsable a parse error does not block fixing and must not fail the run
+                    fparams = [a.arg for a in f.args.args + f.args.kwonlyargs]
+                    if "fix_even_unparsable" in fparams and ci.types is not None and "SQLParseError" in set(ci.types):
+                        chk.count("R22g.parse_error_counts_in_fix_drivers")
+                        stn = cfg.stmt_of(n) or st
+                        gated = any(
+                            (not pol) and isinstance(e2, ast.Name) and e2.id == "fix_even_unparsable" for e2, pol in _conditions(cfg, stn)
+                        )
+                        chk.require(
+                            gated, "R22g", n,
+                            f"{f.name}: a count that includes parse errors ({short(n, 60)}) can influence the exit status without a dominating `not fix_even_unparsable`: "
+                            "with --FIX-EVEN-UNPARSABLE the file is fixed, nothing unfixable remains, and the run still exits 1 (the path driver returns the "
+                            "pre-existing exit code in that case)",
+                            detail=f"{f.name}: parse-error count is gated by not fix_even_unparsable",
+                        )
                 # names bound from tuple summaries (a, b = X.count_tmp_prs_errors())
             for nm in [x for x in ast.walk(e) if isinstance(x, ast.Name)]:
                 ci = counts.classify(f, nm, st)
@@ -264,6 +280,16 @@ def run(chk) -> None:
                         f"a count that is not suppression/warning-filtered can influence the exit status of {via}: {ci!r}",
                         detail=f"{f.name}: exit-influencing component {nm.id}",
                     )
+                    fparams = [a.arg for a in f.args.args + f.args.kwonlyargs]
+                    if "fix_even_unparsable" in fparams and ci.types is not None and "SQLParseError" in set(ci.types):
+                        chk.count("R22g.parse_error_counts_in_fix_drivers")
+                        stn = cfg.stmt_of(nm) or st
+                        gated = any((not pol) and isinstance(e2, ast.Name) and e2.id == "fix_even_unparsable" for e2, pol in _conditions(cfg, stn))
+                        chk.require(
+                            gated, "R22g", nm,
+                            f"{f.name}: a count that includes parse errors ({nm.id}) can influence the exit status without a dominating `not fix_even_unparsable`",
+                            detail=f"{f.name}: parse-error count is gated by not fix_even_unparsable",
+                        )
             # helper return values
             for c in [x for x in ast.walk(e) if isinstance(x, ast.Call)]:
                 if isinstance(c.func, ast.Name) and c.func.id in local_funcs:
@@ -614,6 +640,10 @@ def _after(cfg, a, b) -> bool:
 from ..selftest import Variant  # noqa: E402
 
 VARIANTS = [
+    Variant("stdin-fix-templater-flag-counts-parse-errors", CLI,
+            "    templater_error = result.num_violations(types=SQLTemplaterError) > 0\n",
+            "    templater_error = result.num_violations(types=TMP_PRS_ERROR_TYPES) > 0\n", "R22g", "_stdin_fix",
+            "seeded C22-3: `fix - --FIX-EVEN-UNPARSABLE` exits 1 for a file that was fixed"),
     # behaviour-preserving refactors: must stay quiet
     Variant(
         "quiet-lint-exit-through-locals", CLI,
